@@ -35,7 +35,7 @@ EXTENDS SsLink
 \* the three CRCs: bit-serial definitions of CRC.tla (overridable by tables built from them, see MCPacketTx)
 Crc5(v11) == Usb3Crc5(v11)
 HdrCrc16(dw) == Usb3Crc16(dw)
-Crc32Of(pl) == Usb3Crc32Bytes(pl)
+Crc32Of(pl) == Crc32Stream(pl)        \* = Usb3Crc32Bytes(pl), see SsLink
 
 LinkCtl(seq, rsv, hub, dl, df) == seq + 8 * rsv + 64 * hub + 512 * dl + 1024 * df
 LinkCtlWord16(lc) == lc + 2048 * Crc5(lc)
